@@ -209,7 +209,8 @@ namespace sim
 		int const version = m_out_buffer[0];
 		int const command = m_out_buffer[1];
 		m_command = command;
-		++m_cmd_counts[command - 1];
+		// the command byte comes straight from the client
+		if (command >= 1 && command <= 3) ++m_cmd_counts[command - 1];
 
 		if (version != m_version)
 		{
